@@ -1046,7 +1046,12 @@ def explore(ctx):
     PAR_CFG["q24"] = {"patterns": rhythm_patterns(R24, ctx.pick(1, 2), Fraction(1, 2)), "meter": (2, 4)}
     PAR_CFG["m24"] = {"patterns": rhythm_patterns(R24, ctx.pick(4, 5), Fraction(1, 2)), "meter": (2, 4),
                       "cycles": ctx.pick([("A", "B")], [("A", "B"), ("C", "A")]), "bpms": ctx.pick([60], [60, 240])}
+    # very short entries (128th, 64th, 32nd notes): shorter than any tolerance a scheduler may use for "the same beat"
+    fine = rhythm_patterns(["128", "64", "32", "4"], 3, Fraction(1, 2))
+    PAR_CFG["f24"] = {"patterns": fine, "meter": (2, 4), "same_keys": True, "cycles": [("A", "A"), ("B", "C")]}
     if ctx.want("bars"):
+        ctx.product("bars", [("f24", i) for i in range(len(fine))], gen_bars_single)
+        ctx.product("bars", [("f24", i) for i in range(len(fine))], gen_bars_pairs)
         ctx.bound("bars", {"2/4 patterns over 4,8,6,12 (<=6 entries, every prefix)": len(p24),
                            "4/4 patterns over 2,4,8 (<=6 entries, every prefix)": len(p44),
                            "kind cycles per pair (2/4)": PAR_CFG["p24"]["cycles"], "kind cycles per pair (4/4)": PAR_CFG["p44"]["cycles"],
